@@ -1,5 +1,45 @@
 # C17 — History and status tell the truth about the ledger.
-from . import ledger
+from . import ledger, runprop
+import vlib
+
+# API side: runprop history syncs a scenario with the real node, starts the real API server and
+# walks get-transactions (by hash, address, height, txid; every filter; explicit offsets),
+# get-transaction, get-transaction-status and get-pegnet-balances, comparing with what plain
+# SELECTs on a read-only connection say the tables hold.
+API_QUICK = ("eras", "dups")
+API_MORE = ("staking", "bank", "corners")
+
+
+def api(ctx, scenarios):
+    found = False
+    cov = ctx.coverage.setdefault("correspondence", {}).setdefault("api history/status/balances vs the tables", {})
+    for sc in scenarios:
+        try:
+            recs, summary = runprop.run(ctx, "history", "scen:" + sc, ctx.seed, [])
+        except vlib.TieBroken as e:
+            ctx.add_violation("the API history driver could not run on scenario %s: %s" % (sc, str(e)[:500]),
+                              {"kind": "api-history", "scenario": sc, "seed": ctx.seed, "error": str(e)[:2000]},
+                              name="api-history-broken", found_input=False)
+            found = True
+            continue
+        cov[sc] = dict((k, v) for k, v in summary.items() if not isinstance(v, (list,)))
+        ctx.coverage["evaluations"] = ctx.coverage.get("evaluations", 0) + int(summary.get("queries", 0) or 0)
+        ctx.coverage["traces_validated_against_impl"] = ctx.coverage.get("traces_validated_against_impl", 0) + 1
+        by = {}
+        for r in recs:
+            if r.get("cmd") != "history" or "what" not in r:
+                continue
+            by.setdefault((r.get("kind"), r.get("what"), r.get("method")), []).append(r)
+        for (kind, what, method), rs in sorted(by.items(), key=lambda kv: str(kv[0])):
+            r = rs[0]
+            ctx.add_violation("API %s: %s on %s (scenario %s seed %d): key %s filters %s expected %s got %s — %s (%d such answers)"
+                              % (kind, what, method, sc, ctx.seed, r.get("key"), r.get("filters"), r.get("expected"), r.get("got"),
+                                 str(r.get("detail"))[:300], len(rs)),
+                              {"kind": "api-history", "scenario": sc, "seed": ctx.seed, "first": r, "count": len(rs),
+                               "replay_cmd": "harness: go run -tags verif ./cmd/runprop history -work <dir> -scenario scen:%s -seed %d" % (sc, ctx.seed)},
+                              name="api-%s-%s" % (kind, what))
+            found = True
+    return found
 
 
 def oracle(ctx, res):
@@ -17,7 +57,10 @@ def run(ctx):
     ctx.coverage["rule"] = ledger.rule("C17") + "; plus the oracle 'replaying the recorded history reproduces every balance' evaluated on the node's final dump of every chain"
     ctx.proof_stage()
     oracle(ctx, ledger.run(ctx))
+    api(ctx, API_QUICK + (API_MORE if ctx.tier == "thorough" else ()))
 
 
 def search(ctx, why):
-    return oracle(ctx, ledger.run(ctx, extra=("bank", "staking")))
+    a = oracle(ctx, ledger.run(ctx, extra=("bank", "staking")))
+    b = api(ctx, API_QUICK + API_MORE)
+    return a or b
